@@ -21,7 +21,7 @@ SEEDED = os.path.join(VERIF, "seeded")
 
 
 def scratch(name):
-    d = os.path.join(tempfile.gettempdir(), "ta-seed-" + name)
+    d = os.path.join(tempfile.gettempdir(), "ta-seed-%s-%d" % (name, os.getpid()))
     shutil.rmtree(d, ignore_errors=True)
     os.makedirs(d)
     for item in ("src", "Cargo.toml", "Cargo.lock", "tests", "benches", "examples"):
@@ -94,7 +94,7 @@ def run(sid, props=None):
         for p in props or PROPS:
             if not os.path.exists(os.path.join(HERE, "rules_%s.py" % p.lower())):
                 continue
-            r = subprocess.run([sys.executable, os.path.join(HERE, "main.py"), p, "--repo", d, "--tag", "seed-" + sid, "--no-evidence"],
+            r = subprocess.run([sys.executable, os.path.join(HERE, "main.py"), p, "--repo", d, "--tag", "seed-%s-%d" % (sid, os.getpid()), "--no-evidence"],
                                stdout=subprocess.PIPE, stderr=subprocess.STDOUT, text=True)
             keys = [ln.strip().split("  rule=")[0] for ln in r.stdout.splitlines() if ln.startswith("  " + p + ":")]
             out[p] = {"rc": r.returncode, "keys": keys[:6]}
@@ -103,7 +103,7 @@ def run(sid, props=None):
     finally:
         shutil.rmtree(d, ignore_errors=True)
         import extract
-        extract.drop_scratch("seed-" + sid)
+        extract.drop_scratch("seed-%s-%d" % (sid, os.getpid()))
     return out
 
 
